@@ -81,7 +81,7 @@ const INTEGRAL_PRIMS: [&str; 12] = [
     "varuint62",
 ];
 
-const ARG_POOL: [&str; 19] = [
+const ARG_POOL: [&str; 22] = [
     "x",
     "Foo",
     "a b",
@@ -102,6 +102,10 @@ const ARG_POOL: [&str; 19] = [
     "\\\\",
     "\\\"",
     "\\leading",
+    // white space at the edges of a string argument is part of it
+    " leading blank",
+    "trailing blank ",
+    "  ",
 ];
 
 #[derive(Clone, Debug)]
